@@ -11,7 +11,7 @@ from __future__ import annotations
 
 import ast
 
-from .model import call_name, norm
+from .model import call_name, norm, strip_copy
 from .poly import Rat, eval_expr, sqrt_of
 from .report import AnalysisError
 
@@ -50,6 +50,7 @@ class SymEnv:
         return Rat.sym(k)
 
     def ev(self, e: ast.expr) -> Rat:
+        e = strip_copy(e)
         if isinstance(e, ast.Subscript):
             t = norm(e)
             if any(t.endswith(s) for s in STRIP_SUBSCRIPTS):
